@@ -282,7 +282,12 @@ class Text(ExcelType):
         except (ValueError, OverflowError):
             pass
         try:
-            return dateutil.parser.parse(self.value)
+            value = dateutil.parser.parse(self.value)
+            # Excel date/times have no time zone: text carrying a UTC offset
+            # ("2020-04-01 00:00:00-2") is not a date, and an offset-aware
+            # datetime cannot be turned into a serial number.
+            if value.tzinfo is None:
+                return value
         except (ValueError, OverflowError):
             pass
         raise xlerrors.ValueExcelError(
